@@ -558,6 +558,10 @@ def c18(run):
     fams = ["c18names", "c18faults"] if run.tier == "quick" else ["c18namesall", "c18faults"]
     jobs = [dict(module="MC_Tree", cfg=text_cfg(fam), name="MC_Tree_" + fam, timeout=3000, workers=1) for fam in fams]
     jobs.append(dict(module="MC_Loader", cfg=LOADER_CFG, name="MC_Loader", timeout=600, workers=2))
+    # template names that themselves end in the extension: linked by TwLink, run on machine E
+    stl = run.tlc("MC_Link", link_cfg("c18dotted"), name="MC_Link_c18dotted", timeout=3000, workers=2)
+    lpath, ln = run.records(stl)
+    run.replay("tree", lpath, name="tree-c18dotted")
     sts = run.tlc_many(jobs)
     for fam, st in zip(fams, sts):
         path, n = run.records(st)
@@ -801,6 +805,11 @@ def c20(run):
     open(conv, "a").write("{}\n")          # the result round-trip probe
     run.replay("conv", conv, name="conv", timeout_ms=20000)
     run.add_samples(conv, 1)
+    # the same with receiver and arguments passed as data (strings with markup and character references among them)
+    st2 = run.tlc("MC_Builtins", text_cfg("convdata").replace("INVARIANTS Gen", "INVARIANTS Total Gen"), name="MC_Builtins_convdata",
+                  timeout=1500, workers=2)
+    conv2, cnt2 = run.records(st2)
+    run.replay("conv", conv2, name="convdata", timeout_ms=20000)
     return vp.finish(run, "model_checking",
                      "the registry state machine (spec/MC_Reg.tla): every history of 3 (thorough: also 4) operations over "
                      "{Register(t, f), Register(t, built-in name), call of f / g / the built-in name on a literal and on "
